@@ -11,10 +11,16 @@
   ICS-20 escrowing).  A direct payment into an escrow account would raise only the balance side:
   `tracked ≤ balances` in general (the harness accounts for such donations explicitly).
 
-  Not modelled here: packet-forward-middleware's escrow-to-escrow refund moves (apps cluster, C43).
+  Packet-forward refund moves: `Model/Ics20Pfm.lean` models the three bank / tracked-escrow moves of
+  `WriteAcknowledgementForForwardedPacket` (escrow → escrow; escrow → burn with `unescrowToken`; mint →
+  escrow with the tracked total incremented; nothing when the packet bounced back over its arrival
+  channel, fix f970a92) as a step on the same chain state; the theorems `pfm_refund_*` below show that
+  each of them preserves the equality and the bound.  (When PFM runs them — the in-flight record, the
+  retry logic — is the apps cluster's model, C43.)
 -/
 import IbcVerif.Model.Ics20
 import IbcVerif.Lemmas.Ics20Escrow
+import IbcVerif.Lemmas.Ics20Pfm
 namespace IbcVerif.C31
 open IbcVerif IbcVerif.Xfer IbcVerif.Ics20
 
@@ -60,6 +66,50 @@ theorem step_keeps_escrow_in_sync (cfg : Config) (ha : Assm cfg) (ends : Nat →
     (w : World) (hw : Inv cfg w) (hesc : EscInv cfg ends w) (op : Op) (hg : Guard w op) (hpo : PartiesOK cfg op) :
     EscInv cfg ends (step cfg w op).1 :=
   escInv_step ha he hw hesc op hg hpo
+
+/-- **Packet-forward refund moves keep tracked escrow = combined escrow balance.**  Whichever of the
+    branches of `WriteAcknowledgementForForwardedPacket` runs (forward channel `fc`, refund channel
+    `rc`, token `D`, amount `n`), a chain state satisfying the equality still satisfies it afterwards. -/
+theorem pfm_refund_keeps_total_escrow_eq_balances (cfg : Config) (ha : Assm cfg) (es : List Str) (hnd : es.Nodup)
+    (ch ch' : Chain) (fc rc : Str) (D : Denom) (n : Nat) (h : EscOK cfg es ch) (hfc : fc ∈ es) (hrc : rc ∈ es)
+    (hp : pfmRefund cfg ch transferPort fc transferPort rc D n = .ok ch') :
+    ∀ d, ch'.totalEscrow d = (es.map fun e => ch'.bank.bal (cfg.escrowAddr transferPort e) d).sum :=
+  escOK_pfmRefund ha hnd h hfc hrc hp
+
+/-- … hence every escrow account stays bounded by the tracked total after a packet-forward refund -/
+theorem pfm_refund_escrow_account_le_total (cfg : Config) (ha : Assm cfg) (es : List Str) (hnd : es.Nodup)
+    (ch ch' : Chain) (fc rc : Str) (D : Denom) (n : Nat) (h : EscOK cfg es ch) (hfc : fc ∈ es) (hrc : rc ∈ es)
+    (hp : pfmRefund cfg ch transferPort fc transferPort rc D n = .ok ch') (e : Str) (he : e ∈ es) (d : Str) :
+    ch'.bank.bal (cfg.escrowAddr transferPort e) d ≤ ch'.totalEscrow d := by
+  rw [pfm_refund_keeps_total_escrow_eq_balances cfg ha es hnd ch ch' fc rc D n h hfc hrc hp d]
+  exact le_sum_of_mem (fun e => ch'.bank.bal (cfg.escrowAddr transferPort e) d) e he
+
+/-- … as a step of the world: the invariant of every chain survives a packet-forward refund on chain `c`
+    (so histories may interleave these steps with the ICS-20 steps of `total_escrow_eq_escrow_balances`) -/
+theorem pfm_refund_step_keeps_escrow_in_sync (cfg : Config) (ha : Assm cfg) (ends : Nat → List Str) (he : EndsOK cfg ends)
+    (w : World) (hesc : EscInv cfg ends w) (c : Nat) (fc rc : Str) (D : Denom) (n : Nat)
+    (hfc : fc ∈ ends c) (hrc : rc ∈ ends c) :
+    EscInv cfg ends (World.pfmRefund cfg w c transferPort fc transferPort rc D n).1 := by
+  unfold World.pfmRefund
+  split
+  · rename_i ch' hp
+    intro c'
+    simp only [World.setChain]
+    split_ifs with hcc
+    · subst hcc
+      exact escOK_pfmRefund ha (he.nodup _) (hesc _) hfc hrc hp
+    · exact hesc c'
+  · exact hesc
+
+/-- the burning branch cannot hit the `unescrowToken` panic (negative tracked total) when the equality
+    holds: the tracked total covers whatever an escrow account can pay out -/
+theorem pfm_refund_never_panics_on_total (cfg : Config) (es : List Str) (ch : Chain) (h : EscOK cfg es ch)
+    (fc : Str) (hfc : fc ∈ es) (d : Str) (n : Nat)
+    (hn : n ≤ ch.bank.bal (cfg.escrowAddr transferPort fc) d) : ¬ ch.totalEscrow d < n := by
+  have hle : ch.bank.bal (cfg.escrowAddr transferPort fc) d ≤ ch.totalEscrow d := by
+    rw [h d]
+    exact le_sum_of_mem (fun e => ch.bank.bal (cfg.escrowAddr transferPort e) d) fc hfc
+  omega
 
 /-- a genesis-like world (tracked totals and escrow accounts empty) satisfies the invariant -/
 theorem escInv_genesis (cfg : Config) (ends : Nat → List Str) (w : World)
